@@ -8,7 +8,6 @@ import (
 
 	"golang.org/x/tools/go/packages"
 	"golang.org/x/tools/go/ssa"
-	"golang.org/x/tools/go/types/typeutil"
 
 	"verif/sa/internal/core"
 	"verif/sa/internal/flow"
@@ -543,7 +542,7 @@ func checkGenTestParams(p *core.Program, r *core.Report, helpers []*hashHelper) 
 			if !ok {
 				return true
 			}
-			fn, _ := typeutil.Callee(info, call).(*types.Func)
+			fn, _ := flow.Callee(info, call).(*types.Func)
 			if fn == nil || !helperObj[fn.Origin()] {
 				return true
 			}
@@ -603,7 +602,7 @@ func checkGenTestParams(p *core.Program, r *core.Report, helpers []*hashHelper) 
 				if !ok {
 					return true
 				}
-				if f2, _ := typeutil.Callee(info, mc).(*types.Func); f2 != nil && f2.FullName() == "encoding/json.Marshal" && len(mc.Args) == 1 && baseIdentVar(info, mc.Args[0]) == pv {
+				if f2, _ := flow.Callee(info, mc).(*types.Func); f2 != nil && f2.FullName() == "encoding/json.Marshal" && len(mc.Args) == 1 && baseIdentVar(info, mc.Args[0]) == pv {
 					if loc, ok := g.Locate(mc); ok && g.LocDominates(callLoc, loc) {
 						marshalled = true
 					} else {
@@ -639,9 +638,9 @@ func checkGenTestParams(p *core.Program, r *core.Report, helpers []*hashHelper) 
 							if !ok {
 								return true
 							}
-							if f2, _ := typeutil.Callee(oi, mc).(*types.Func); f2 != nil && f2.FullName() == "encoding/json.Marshal" && len(mc.Args) == 1 {
+							if f2, _ := flow.Callee(oi, mc).(*types.Func); f2 != nil && f2.FullName() == "encoding/json.Marshal" && len(mc.Args) == 1 {
 								if inner, ok := ast.Unparen(mc.Args[0]).(*ast.CallExpr); ok {
-									if f3, _ := typeutil.Callee(oi, inner).(*types.Func); f3 != nil && types.Object(f3) == gu.obj {
+									if f3, _ := flow.Callee(oi, inner).(*types.Func); f3 != nil && types.Object(f3) == gu.obj {
 										marshalled = true
 									}
 								}
@@ -652,7 +651,7 @@ func checkGenTestParams(p *core.Program, r *core.Report, helpers []*hashHelper) 
 											for _, l := range as.Lhs {
 												if identVar(oi, l) == v {
 													if inner, ok := ast.Unparen(as.Rhs[0]).(*ast.CallExpr); ok {
-														if f3, _ := typeutil.Callee(oi, inner).(*types.Func); f3 != nil && types.Object(f3) == gu.obj {
+														if f3, _ := flow.Callee(oi, inner).(*types.Func); f3 != nil && types.Object(f3) == gu.obj {
 															marshalled = true
 														}
 													}
